@@ -176,10 +176,11 @@ TupleData(g, k) ==
 
 TupleRegion(t) == IF t.inter THEN RegionOf(t.peak, t.start, t.end) ELSE RegionOfPeak(t.peak)
 
-\* exact coordinates of all np points (outline/components, then 4 phantom points) at `coords`.
+\* Evaluation of a glyph at `coords`: exact coordinates of all np points (outline points or
+\* component offsets, then the 4 phantom points), the scalar of every tuple and its decoded deltas.
 \* phantom: sequence of 4 <<x, y>> default phantom points.
-\* Result: [x |-> function 0..np-1 -> Q, y |-> ...]
-ExactPoints(g, phantom, coords) ==
+\* Result: [x, y |-> function 0..np-1 -> Q, scal |-> sequence of Q, tds |-> sequence]
+Eval(g, phantom, coords) ==
   LET n == NPts(g)
       np == n + 4
       xs == XS(g) ys == YS(g)
@@ -197,11 +198,25 @@ ExactPoints(g, phantom, coords) ==
         ELSE LET pd == PointDelta(simple, xs, ys, g.ends, n, tds[k], i)[d] IN
              Acc(i, d, k + 1, IF QIsZero(pd) THEN acc ELSE QAdd(acc, QMul(scal[k], pd)))
   IN [x |-> [i \in 0 .. np - 1 |-> Acc(i, 1, 1, QOfInt(Def(i, 1)))],
-      y |-> [i \in 0 .. np - 1 |-> Acc(i, 2, 1, QOfInt(Def(i, 2)))]]
+      y |-> [i \in 0 .. np - 1 |-> Acc(i, 2, 1, QOfInt(Def(i, 2)))],
+      scal |-> scal, tds |-> tds]
+
+ExactPoints(g, phantom, coords) == Eval(g, phantom, coords)
 
 \* |out - exact| <= 1
 Within1(out, e) == ZLe(ZAbs(ZSub(ZMul(ZOf(out), e.q), e.p)), e.q)
 QIsInt(e, v) == ZEq(e.p, ZMul(ZOf(v), e.q))
+QLt0(e) == e.p.neg /\ ~ZIsZero(e.p)
+
+\* floor of a rational known to lie in [-2^20, 2^20) (font units are 16-bit), by bisection
+RECURSIVE FloorSearch(_, _, _)
+FloorSearch(e, lo, hi) ==                 \* lo <= floor(e) < hi
+  IF hi - lo = 1 THEN lo
+  ELSE LET mid == (lo + hi) \div 2 IN
+       IF ZLe(ZMul(ZOf(mid), e.q), e.p) THEN FloorSearch(e, mid, hi) ELSE FloorSearch(e, lo, mid)
+QFloor(e) == FloorSearch(e, -1048576, 1048576)
+\* the integers within one unit of e: <<lowest, highest>>
+AcceptInterval(e) == LET f == QFloor(e) IN IF QIsInt(e, f) THEN <<f - 1, f + 1>> ELSE <<f, f + 1>>
 
 \* ---- item variation store -----------------------------------------------------------------------
 \* ivs = [regions |-> sequence of regions, subs |-> sequence of [ri |-> region indices (0-based),
@@ -227,6 +242,129 @@ IvsDelta(ivs, entry, coords) ==
         ELSE LET s == RegionScalar(coords, ivs.regions[sub.ri[k] + 1]) IN
              Sum(k + 1, IF QIsZero(s) \/ row[k] = 0 THEN acc ELSE QAdd(acc, QMul(s, QOfInt(row[k]))))
   IN Sum(1, QZero)
+
+\* ---- verdicts ---------------------------------------------------------------------------------------
+\* Named choices where OpenType leaves the result open (any of the alternatives conforms):
+\*  Dev_Rounding          every output number may be any integer within one unit of the exact value
+\*                        (round half up / half away / truncation of the parts are all accepted).
+\*  Dev_LsbFromOutline    without an HVAR left-side-bearing map the bearing is xMin - pp1.x; xMin may
+\*                        be the exact minimum of the varied points or the xMin of the *written*
+\*                        outline (rounded points, composite boxes from the rounded children).
+\*  Dev_NegativeAdvance   an advance whose exact value is negative may be written as 0.
+\*  Dev_CffLsbUnvaried    a CFF2 font without an HVAR lsb map keeps its side bearings.
+\*  Dev_ClampToField      a metric outside the range of its field may be clamped to it.
+
+AllZero(coords) == \A k \in 1 .. Len(coords) : coords[k] = 0
+PeakAllZero(r) == \A k \in 1 .. Len(r) : r[k][2] = 0
+
+IvsJudged(ivs, naxes) ==
+  /\ \A r \in 1 .. Len(ivs.regions) :
+        Len(ivs.regions[r]) = naxes /\ RegionValid(ivs.regions[r]) /\ ~PeakAllZero(ivs.regions[r])
+  /\ \A s \in 1 .. Len(ivs.subs) : \A k \in 1 .. Len(ivs.subs[s].ri) : ivs.subs[s].ri[k] < Len(ivs.regions)
+
+EntryInRange(ivs, en) ==
+  en.outer < Len(ivs.subs) /\ en.inner < Len(ivs.subs[en.outer + 1].rows)
+
+\* is this glyph inside what the specification gives a meaning to?
+GlyphJudged(g, a) ==
+  LET na == Len(a.coords) IN
+  /\ \A k \in 1 .. Len(g.tuples) :
+        LET t == g.tuples[k] IN
+        /\ Len(t.peak) = na
+        /\ (t.inter => Len(t.start) = na /\ Len(t.end) = na)
+        /\ RegionValid(TupleRegion(t)) /\ ~PeakAllZero(TupleRegion(t))
+        /\ (t.private \/ g.hasShared)
+  /\ a.hvar.present =>
+        /\ IvsJudged(a.hvar.ivs, na)
+        /\ (a.hvar.adv.present => a.hvar.adv.count > 0)
+        /\ (a.hvar.lsb.present => a.hvar.lsb.count > 0)
+        /\ EntryInRange(a.hvar.ivs, EntryFor(a.hvar.adv, a.gid))
+        /\ (a.hvar.lsb.present => EntryInRange(a.hvar.ivs, EntryFor(a.hvar.lsb, a.gid)))
+
+DefaultPhantom(a) ==
+  LET pp1 == a.xmin - a.lsb IN <<<<pp1, 0>>, <<pp1 + a.adv, 0>>, <<0, 0>>, <<0, 0>>>>
+
+\* are the points of this glyph varied at all?
+Varied(a) == a.kind = "simple" \/ (a.kind = "composite" /\ a.plain)
+
+ExactAdvance(a, n, ev) ==
+  IF a.hvar.present THEN QAdd(QOfInt(a.adv), IvsDelta(a.hvar.ivs, EntryFor(a.hvar.adv, a.gid), a.coords))
+  ELSE IF a.kind = "cff" THEN QOfInt(a.adv)
+  ELSE QSub(ev.x[n + 1], ev.x[n])
+
+LsbRule(a) == IF a.hvar.present /\ a.hvar.lsb.present THEN "map"
+              ELSE IF a.kind = "cff" THEN "cff" ELSE "outline"
+
+\* minimum of the exact x coordinates of the outline points (n > 0)
+RECURSIVE QMinFrom(_, _, _, _)
+QMinFrom(f, i, n, m) == IF i >= n THEN m ELSE QMinFrom(f, i + 1, n, IF QCmp(f[i], m) < 0 THEN f[i] ELSE m)
+
+\* bad: set of <<clause, index, got, want>>
+GlyphVerdict(g, a, o) ==
+  LET n == NPts(g)
+      ev == Eval(g, DefaultPhantom(a), a.coords)
+      still == AllZero(a.coords)
+      C(d, i) == IF d = 1 THEN ev.x[i] ELSE ev.y[i]
+      shapeOK == o.kind = a.kind /\ Len(o.pts) = n /\ o.ends = a.ends /\ o.on
+      shapeBad == IF shapeOK THEN {} ELSE {<<"shape", 0, <<o.kind, Len(o.pts)>>, <<a.kind, n>>>>}
+      pointBad ==
+        IF ~shapeOK THEN {}
+        ELSE IF ~Varied(a) \/ still
+        THEN {<<IF still THEN "default-point" ELSE "unvaried-point", 2 * i + d - 1, o.pts[i + 1][d], <<a.pts[i + 1][d]>>>> :
+                 <<i, d>> \in {p \in (0 .. n - 1) \X {1, 2} : o.pts[p[1] + 1][p[2]] # a.pts[p[1] + 1][p[2]]}}
+        ELSE {<<"point", 2 * i + d - 1, o.pts[i + 1][d], AcceptInterval(C(d, i))>> :
+                 <<i, d>> \in {p \in (0 .. n - 1) \X {1, 2} : ~Within1(o.pts[p[1] + 1][p[2]], C(p[2], p[1]))}}
+      adv == ExactAdvance(a, n, ev)
+      advBad ==
+        IF still THEN (IF o.adv = a.adv THEN {} ELSE {<<"default-adv", 0, o.adv, <<a.adv>>>>})
+        ELSE IF Within1(o.adv, adv) \/ (QLt0(adv) /\ o.adv = 0) THEN {}
+        ELSE {<<"adv-" \o (IF a.hvar.present THEN "hvar" ELSE "phantom"), 0, o.adv, AcceptInterval(adv)>>}
+      rule == LsbRule(a)
+      pp1 == ev.x[n]
+      lsbBad ==
+        IF still THEN (IF o.lsb = a.lsb THEN {} ELSE {<<"default-lsb", 0, o.lsb, <<a.lsb>>>>})
+        ELSE IF rule = "map"
+        THEN LET x == QAdd(QOfInt(a.lsb), IvsDelta(a.hvar.ivs, EntryFor(a.hvar.lsb, a.gid), a.coords)) IN
+             IF Within1(o.lsb, x) THEN {} ELSE {<<"lsb-map", 0, o.lsb, AcceptInterval(x)>>}
+        ELSE IF rule = "cff" THEN (IF o.lsb = a.lsb THEN {} ELSE {<<"lsb-cff", 0, o.lsb, <<a.lsb>>>>})
+        ELSE LET fromOut == o.xminKnown /\ Within1(o.xmin - o.lsb, pp1)
+                 exactKnown == a.kind = "empty" \/ (a.kind = "simple" /\ n > 0)
+                 xm == IF a.kind = "empty" THEN QZero ELSE QMinFrom(ev.x, 1, n, ev.x[0])
+                 fromExact == exactKnown /\ Within1(o.lsb, QSub(xm, pp1))
+             IN IF fromOut \/ fromExact \/ (~o.xminKnown /\ ~exactKnown) THEN {}
+                ELSE {<<"lsb-outline", 0, o.lsb,
+                        IF exactKnown THEN AcceptInterval(QSub(xm, pp1)) ELSE AcceptInterval(QSub(QOfInt(o.xmin), pp1))>>}
+      active == Cardinality({k \in 1 .. Len(g.tuples) : ~QIsZero(ev.scal[k])})
+      \* points whose delta is inferred in some applicable tuple
+      inferred == IF a.kind # "simple" THEN 0
+                  ELSE Cardinality({i \in 0 .. n - 1 : \E k \in 1 .. Len(g.tuples) :
+                                       ~QIsZero(ev.scal[k]) /\ ~ev.tds[k].has[i]})
+      frac == IF still \/ ~Varied(a) THEN 0
+              ELSE Cardinality({p \in (0 .. n - 1) \X {1, 2} : ~QIsInt(C(p[2], p[1]), QFloor(C(p[2], p[1])))})
+  IN [bad |-> shapeBad \cup pointBad \cup advBad \cup lsbBad,
+      stat |-> [kind |-> a.kind, still |-> still, tuples |-> Len(g.tuples), active |-> active,
+                inferred |-> inferred, frac |-> frac, n |-> n,
+                hvar |-> IF ~a.hvar.present THEN "none" ELSE IF a.hvar.adv.present THEN "map" ELSE "direct",
+                lsbrule |-> rule, varied |-> Varied(a),
+                lsbJudged |-> (rule # "outline" \/ o.xminKnown \/ a.kind \in {"empty", "simple"})]]
+
+\* The acceptable interval of every output number, as a flat sequence: x0, y0, x1, y1, ..., advance,
+\* pp1.x.  Used to compare MC_Variation's expectation with the judge's evaluation of the font bytes.
+GlyphExpect(g, a) ==
+  LET n == NPts(g)
+      ev == Eval(g, DefaultPhantom(a), a.coords)
+  IN [j \in 1 .. 2 * n + 2 |->
+        IF j <= 2 * n THEN AcceptInterval(IF j % 2 = 1 THEN ev.x[(j - 1) \div 2] ELSE ev.y[(j - 1) \div 2])
+        ELSE IF j = 2 * n + 1 THEN AcceptInterval(ExactAdvance(a, n, ev))
+        ELSE AcceptInterval(ev.x[n])]
+
+\* a: [tag, base, coords, ivs, outer, inner, lo, hi]   (lo .. hi = range of the field)
+MetricVerdict(a, value) ==
+  LET x == QAdd(QOfInt(a.base), IvsDelta(a.ivs, [outer |-> a.outer, inner |-> a.inner], a.coords)) IN
+  IF AllZero(a.coords) THEN (IF value = a.base THEN {} ELSE {<<"default-metric", 0, value, <<a.base>>>>})
+  ELSE IF Within1(value, x) THEN {}
+  ELSE IF (QCmp(x, QOfInt(a.lo)) < 0 /\ value = a.lo) \/ (QCmp(x, QOfInt(a.hi)) > 0 /\ value = a.hi) THEN {}
+  ELSE {<<"metric", 0, value, AcceptInterval(x)>>}
 
 \* ---- what a static instance may contain ----------------------------------------------------------
 VariationTables == {"fvar", "gvar", "avar", "cvar", "HVAR", "VVAR", "MVAR"}
